@@ -51,6 +51,11 @@ structure Qry where
   pageSize : Int
   pageState : Bytes        -- nil and empty are the same to `len(qry.pageState) > 0`
   disableAutoPage : Bool
+  -- fields that decide HOW the fetch is executed, not what is requested (used by Model/PagingHist.lean)
+  pf : Int := 1                -- Query.prefetch in quarters (0.25 = session default)
+  ctx : Option Nat := none     -- Query.context: none = Background, some c = a context of the caller
+  idem : Bool := false         -- Query.idempotent
+  spec : Nat := 0              -- speculativeExecutionPolicy().Attempts()
   deriving DecidableEq, Repr
 
 /-- a request as the server sees it -/
